@@ -353,6 +353,8 @@ impl ToInternedString for LiteralKind {
                 buf.push('"');
                 buf
             }
+            // A literal that overflowed to infinity: `inf` would be an identifier.
+            Self::Num(num) if num.is_infinite() => "1e999".to_owned(),
             Self::Num(num) => num.to_string(),
             Self::Int(num) => num.to_string(),
             Self::BigInt(ref num) => format!("{num}n"),
